@@ -637,6 +637,62 @@ class Stats:
         return dict(self.__dict__)
 
 
+_COMMUTATIVE = {z3.Z3_OP_AND, z3.Z3_OP_OR, z3.Z3_OP_EQ, z3.Z3_OP_DISTINCT, z3.Z3_OP_BADD, z3.Z3_OP_BMUL, z3.Z3_OP_BAND, z3.Z3_OP_BOR, z3.Z3_OP_BXOR,
+                z3.Z3_OP_ADD, z3.Z3_OP_MUL, z3.Z3_OP_IFF, z3.Z3_OP_XOR}
+_CANON_CAP = 600
+
+
+def _canon_hash(t):
+    """Structural hash of a term that ignores the argument order of commutative operators (z3's simplifier orients some of
+    those by AST id, which differs between two executions of the same path).  Walks the raw AST through the C API; returns
+    None (guard skipped) for terms with more than _CANON_CAP argument edges."""
+    ctx = t.ctx.ref()
+    zc = z3.z3core
+    memo = {}
+    expanded = set()
+    root = t.as_ast()
+    stack = [(root, False)]
+    budget = _CANON_CAP
+    while stack:
+        x, done = stack.pop()
+        xid = zc.Z3_get_ast_id(ctx, x)
+        if xid in memo:
+            continue
+        kind = zc.Z3_get_ast_kind(ctx, x)
+        if kind != z3.Z3_APP_AST:
+            memo[xid] = hash((kind, zc.Z3_ast_to_string(ctx, x)))
+            continue
+        n = zc.Z3_get_app_num_args(ctx, x)
+        if n == 0:
+            memo[xid] = hash(zc.Z3_ast_to_string(ctx, x))
+            continue
+        args = [zc.Z3_get_app_arg(ctx, x, i) for i in range(n)]
+        if not done:
+            if xid in expanded:
+                continue
+            expanded.add(xid)
+            budget -= n
+            if budget < 0:
+                return None
+            stack.append((x, True))
+            for c in args:
+                if zc.Z3_get_ast_id(ctx, c) not in memo:
+                    stack.append((c, False))
+            continue
+        d = zc.Z3_get_app_decl(ctx, x)
+        dk = zc.Z3_get_decl_kind(ctx, d)
+        hs = [memo[zc.Z3_get_ast_id(ctx, c)] for c in args]
+        if dk in _COMMUTATIVE:
+            hs.sort()
+        np_ = zc.Z3_get_decl_num_parameters(ctx, d)
+        params = tuple(zc.Z3_get_decl_int_parameter(ctx, d, i) for i in range(np_)) if dk in _INT_PARAM_OPS else np_
+        memo[xid] = hash((dk, params, tuple(hs)))
+    return memo[zc.Z3_get_ast_id(ctx, root)]
+
+
+_INT_PARAM_OPS = {z3.Z3_OP_EXTRACT, z3.Z3_OP_ZERO_EXT, z3.Z3_OP_SIGN_EXT, z3.Z3_OP_ROTATE_LEFT, z3.Z3_OP_ROTATE_RIGHT, z3.Z3_OP_REPEAT}
+
+
 class Engine:
     """One path of one exploration."""
 
@@ -710,11 +766,11 @@ class Engine:
 
     def _decide(self, t) -> bool:
         if self.pos < len(self.prefix):
-            kind, choice = self.prefix[self.pos]
-            if kind != "b":
-                raise RuntimeError("pysym: non-deterministic replay (expected bool decision)")
+            kind, choice, h = self.prefix[self.pos]
+            if kind != "b" or (h is not None and h != _canon_hash(t)):
+                raise RuntimeError("pysym: non-deterministic replay (decision %d is about a different term than when it was recorded)" % self.pos)
             self.pos += 1
-            self.decisions.append(("b", choice))
+            self.decisions.append(("b", choice, h))
             self.assume(t if choice else z3.Not(t))
             return choice
         # new decision
@@ -734,12 +790,12 @@ class Engine:
             raise Inconclusive("path condition became unsatisfiable")
         if can_t and can_f:
             self.stats.forks += 1
-            self.alternatives.append(self.decisions + [("b", False)])
+            self.alternatives.append(self.decisions + [("b", False, _canon_hash(t))])
             choice = True
         else:
             choice = can_t
         self.pos += 1
-        self.decisions.append(("b", choice))
+        self.decisions.append(("b", choice, _canon_hash(t)))
         # keep the cached model only if it agrees
         if self.model is not None and self._model_says(t) is not choice:
             self.model = None
@@ -762,11 +818,11 @@ class Engine:
 
     def _concretize(self, t) -> int:
         if self.pos < len(self.prefix):
-            kind, choice = self.prefix[self.pos]
-            if kind != "v":
-                raise RuntimeError("pysym: non-deterministic replay (expected value decision)")
+            kind, choice, h = self.prefix[self.pos]
+            if kind != "v" or (h is not None and h != _canon_hash(t)):
+                raise RuntimeError("pysym: non-deterministic replay (decision %d is about a different term than when it was recorded)" % self.pos)
             self.pos += 1
-            self.decisions.append(("v", choice))
+            self.decisions.append(("v", choice, h))
             self.assume(t == _bv(choice))
             return choice
         self.stats.concretizations += 1
@@ -788,12 +844,12 @@ class Engine:
             raise Inconclusive("path condition became unsatisfiable")
         vals.sort()
         for v in vals[1:]:
-            self.alternatives.append(self.decisions + [("v", v)])
+            self.alternatives.append(self.decisions + [("v", v, _canon_hash(t))])
         if len(vals) > 1:
             self.stats.forks += len(vals) - 1
         choice = vals[0]
         self.pos += 1
-        self.decisions.append(("v", choice))
+        self.decisions.append(("v", choice, _canon_hash(t)))
         self.model = None
         self.constraints.append(t == _bv(choice))
         self.solver.add(self.constraints[-1])
